@@ -22,7 +22,8 @@ THEOREMS = ['Props.C18.' + t for t in [
     'direction_track_sizes', 'next_block_unique', 'find_surface_on_line', 'rectangle_half_width', 'rotation_inverse',
     'rectgeo_spacings_partial', 'rectgeo_spacings_2d_partial', 'line_sizes_are_widths', 'surfaces_recovered_partial',
     'snap_keeps_surface', 'origin_recovered',
-    'row_track_widths', 'rectgeo_spacings_lattice_partial', 'lattice_lines']]
+    'row_track_widths', 'rectgeo_spacings_lattice_partial', 'lattice_lines',
+    'lattice_topmost_block', 'rectgeo_spacings_lattice', 'rectgeo_spacings_lattice_2d', 'column_surface_on_row_partial']]
 LEVEL_TEXT = ('Partial proof: Lean theorems about the executable model of rectgeo for the three core steps (the surface formula inverts '
               'block_centre/block_volume for a surface inside a layer and above the top layer; the spacing of a single-block direction is '
               'volume / product of the doubled distances; following a direction along a line of blocks visits exactly that line with a unique '
@@ -32,6 +33,12 @@ LEVEL_TEXT = ('Partial proof: Lean theorems about the executable model of rectge
               'rectgeo_spacings_lattice_partial: on a full rectangular lattice of blocks (any atmosphere arrangement / boundary blocks) block_spacings '
               'returns the three width lists; assumed: which top-layer block is topmost. '
               'lattice_lines: every row and column of such a lattice satisfies the line hypothesis of the walk theorems. '
+              'lattice_topmost_block: when the admissible blocks are exactly the box and centre elevations decrease with the layer index, the '
+              'nanargmax block is a top-layer block; rectgeo_spacings_lattice / rectgeo_spacings_lattice_2d: hence block_spacings returns the '
+              'three width lists of a 3-D lattice, and of a 2-D one (single block along direction 1 or 2, missing width from the origin volume), '
+              'with no hypothesis on walks, connection order or the topmost block. '
+              'column_surface_on_row_partial: for a column given structurally as a vertical row of any height (flat or stepped surfaces) whose top '
+              'block carries fromgeo\'s centre and volume, find_surface returns the generating surface; assumed: the block-map lookup of the bottom block. '
               'NOT proved: that fromgeo of a rectangular geometry is such a lattice (so nothing is yet stated directly about rectgeo(fromgeo G)), '
               'stepped surfaces in the lattice description, the block map; the composition '
               '(rectgeo inverts fromgeo, block map reproduces names/volumes/connections) and general rotation angles are NOT proved: they are '
